@@ -22,11 +22,20 @@ import (
 type tableInfo struct {
 	keys, vals []ast.Expr
 	zeroIsNil  bool // entries are functions / pointers: an absent entry is nil, a present one is not
+	elemT      types.Type
+	elemExpr   ast.Expr // the element type as written in the table's type, when it is
 }
 
 func (in *inliner) tableOf(e ast.Expr) *tableInfo {
 	v, ok := objOf(in.info, unparen(e)).(*types.Var)
-	if !ok || v.Pkg() == nil || v.Parent() != v.Pkg().Scope() || v.Pkg() != in.p.Types {
+	if !ok {
+		return nil
+	}
+	return in.tableOfVar(v)
+}
+
+func (in *inliner) tableOfVar(v *types.Var) *tableInfo {
+	if v.Pkg() == nil || v.Parent() != v.Pkg().Scope() || v.Pkg() != in.p.Types {
 		return nil
 	}
 	if !in.freshVars[v] {
@@ -122,7 +131,13 @@ func (in *inliner) tableOf(e ast.Expr) *tableInfo {
 	if written {
 		return nil
 	}
-	ti := &tableInfo{}
+	ti := &tableInfo{elemT: elemT}
+	switch tx := cl.Type.(type) {
+	case *ast.MapType:
+		ti.elemExpr = tx.Value
+	case *ast.ArrayType:
+		ti.elemExpr = tx.Elt
+	}
 	_, isMap := v.Type().Underlying().(*types.Map)
 	next := int64(0)
 	for _, el := range cl.Elts {
@@ -162,6 +177,56 @@ func (in *inliner) tableOf(e ast.Expr) *tableInfo {
 		}
 	}
 	in.tables[v] = ti
+	// a table whose entries are all constants is also readable by the evaluator (T[k] in any expression)
+	{
+		ct := &constTable{}
+		allConst := true
+		for i := range ti.keys {
+			kt, kok := in.info.Types[ti.keys[i]]
+			vt, vok := in.info.Types[ti.vals[i]]
+			if !kok || !vok || kt.Value == nil || vt.Value == nil {
+				allConst = false
+				break
+			}
+			ct.keys = append(ct.keys, kt.Value)
+			ct.vals = append(ct.vals, vt.Value)
+		}
+		// … and one whose entries are keyed struct literals by field (v := T[k]; v.f)
+		if _, isStruct := elemT.Underlying().(*types.Struct); isStruct {
+			st := &structTable{}
+			okS := true
+			for i := range ti.keys {
+				kt, kok := in.info.Types[ti.keys[i]]
+				cl, isCL := unparen(ti.vals[i]).(*ast.CompositeLit)
+				if !kok || kt.Value == nil || !isCL {
+					okS = false
+					break
+				}
+				st.keys = append(st.keys, kt.Value)
+				st.vals = append(st.vals, cl)
+			}
+			if okS {
+				constTablesMu.Lock()
+				structTables[v] = st
+				constTablesMu.Unlock()
+			}
+		}
+		if allConst {
+			if b, isB := elemT.Underlying().(*types.Basic); isB {
+				switch {
+				case b.Info()&types.IsBoolean != 0:
+					ct.zero = constant.MakeBool(false)
+				case b.Info()&types.IsInteger != 0:
+					ct.zero = constant.MakeInt64(0)
+				case b.Info()&types.IsString != 0:
+					ct.zero = constant.MakeString("")
+				}
+			}
+			constTablesMu.Lock()
+			constTables[v] = ct
+			constTablesMu.Unlock()
+		}
+	}
 	return ti
 }
 
@@ -223,6 +288,7 @@ func (in *inliner) caseBody(as *ast.AssignStmt, val ast.Expr, present bool, stmt
 	}
 	var out []ast.Stmt
 	subst := map[types.Object]ast.Expr{}
+	rename := map[types.Object]types.Object{}
 	if vObj != nil && val != nil && uses(vObj) {
 		assigned := false
 		for _, s := range stmts {
@@ -233,7 +299,16 @@ func (in *inliner) caseBody(as *ast.AssignStmt, val ast.Expr, present bool, stmt
 		if in.simpleArg(val) && !assigned {
 			subst[vObj] = val
 		} else {
+			// every clause gets a variable of its own (one definition each), when v was defined by the lookup
 			lhs := (&copier{info: in.info}).ident(as.Lhs[0].(*ast.Ident))
+			if as.Tok == token.DEFINE {
+				if ov, isV := vObj.(*types.Var); isV {
+					nv := types.NewVar(ov.Pos(), ov.Pkg(), ov.Name(), ov.Type())
+					rename[vObj] = nv
+					in.info.Defs[lhs] = nv
+					delete(in.info.Uses, lhs)
+				}
+			}
 			out = append(out, &ast.AssignStmt{Lhs: []ast.Expr{lhs}, TokPos: as.Pos(), Tok: as.Tok, Rhs: []ast.Expr{val}})
 		}
 	}
@@ -241,7 +316,7 @@ func (in *inliner) caseBody(as *ast.AssignStmt, val ast.Expr, present bool, stmt
 		lhs := (&copier{info: in.info}).ident(as.Lhs[1].(*ast.Ident))
 		out = append(out, &ast.AssignStmt{Lhs: []ast.Expr{lhs}, TokPos: as.Pos(), Tok: as.Tok, Rhs: []ast.Expr{in.boolLit(as.Pos(), present)}})
 	}
-	cp := &copier{info: in.info, subst: subst}
+	cp := &copier{info: in.info, subst: subst, rename: rename}
 	for _, s := range stmts {
 		out = append(out, cp.node(s).(ast.Stmt))
 	}
@@ -314,6 +389,21 @@ func (in *inliner) tableLookup(list []ast.Stmt, i int) ([]ast.Stmt, int, bool) {
 				}
 				if !hasBranch(deflt) {
 					sw := in.switchOver(ifs.Pos(), key, ti, func(j int) []ast.Stmt { return in.caseBody(as, ti.vals[j], true, ifs.Body.List) }, in.caseBody(as, nil, false, deflt))
+					return []ast.Stmt{sw}, 1, true
+				}
+			}
+		}
+	}
+	// if v := T[k]; COND { A } else { B } — one value, an absent key gives the zero value: every entry and the default run the
+	// same test on their own v
+	if ifs, isIf := s.(*ast.IfStmt); isIf && ifs.Init != nil {
+		if as, ti, key := in.lookupDef(ifs.Init); as != nil && as.Tok == token.DEFINE && len(as.Lhs) == 1 && !ti.zeroIsNil {
+			inner := *ifs
+			inner.Init = nil
+			if !hasBranch([]ast.Stmt{&inner}) {
+				zero := in.zeroOf(ti, as.Pos())
+				if zero != nil {
+					sw := in.switchOver(ifs.Pos(), key, ti, func(j int) []ast.Stmt { return in.caseBody(as, ti.vals[j], true, []ast.Stmt{&inner}) }, in.caseBody(as, zero, false, []ast.Stmt{&inner}))
 					return []ast.Stmt{sw}, 1, true
 				}
 			}
@@ -403,4 +493,18 @@ func (in *inliner) regroup(sw *ast.SwitchStmt, ti *tableInfo, key ast.Expr) ([]a
 	_ = hasDefault
 	in.count++
 	return []ast.Stmt{out}, 1, true
+}
+
+// zeroOf: an expression for the zero value of the table's element type — a constant for basic types, `T{}` for structs whose type
+// is written in the table's own type.
+func (in *inliner) zeroOf(ti *tableInfo, pos token.Pos) ast.Expr {
+	if z := zeroLit(in.info, ti.elemT, pos); z != nil {
+		return z
+	}
+	if _, isS := ti.elemT.Underlying().(*types.Struct); isS && ti.elemExpr != nil {
+		cl := &ast.CompositeLit{Type: ti.elemExpr, Lbrace: pos, Rbrace: pos}
+		in.info.Types[cl] = types.TypeAndValue{Type: ti.elemT}
+		return cl
+	}
+	return nil
 }
